@@ -40,6 +40,10 @@ where
     }
 
     pub fn start(&self, goal: &Goal<U, E>, state: State<U, E>) -> Stream<U, E> {
+        #[cfg(terohuttunen_proto_vulcan_verif)]
+        if crate::verif_sim::yield_here(crate::verif_sim::SITE_SOLVER_START) {
+            return Stream::delay(self.start(goal, state));
+        }
         match goal {
             Goal::Succeed => Stream::unit(Box::new(state)),
             Goal::Fail => Stream::empty(),
@@ -59,6 +63,10 @@ where
     }
 
     pub fn start_dfs(&self, goal: &DFSGoal<U, E>, state: State<U, E>) -> Stream<U, E> {
+        #[cfg(terohuttunen_proto_vulcan_verif)]
+        if crate::verif_sim::yield_here(crate::verif_sim::SITE_SOLVER_START_DFS) {
+            return Stream::delay(self.start_dfs(goal, state));
+        }
         match goal {
             DFSGoal::Succeed => Stream::unit(Box::new(state)),
             DFSGoal::Fail => Stream::empty(),
